@@ -215,6 +215,17 @@ def rule_delegations(ctx, rule):
                 ok, detail = False, 'the result of the wrapped call is not what the caller gets'
             elif f.is_async and not any(isinstance(x, ast.Await) for r in good for x in ast.walk(r)):
                 ok, detail = False, 'the wrapped awaitable is returned un-awaited from a coroutine'
+        if ok:
+            # the caller's cancellation (a timeout, task.cancel()) must reach the socket's future: that is what sends
+            # CANCEL and releases the stream.  shield() stops it there.
+            shields = [n for n in walk_local(f.node) if isinstance(n, ast.Call) and
+                       (isinstance(n.func, ast.Attribute) and n.func.attr == 'shield' or
+                        isinstance(n.func, ast.Name) and n.func.id == 'shield') and
+                       any(x is calls[0] for x in ast.walk(n))]
+            if shields:
+                ok, detail = False, ('the wrapped call is awaited through shield(): cancelling the caller no longer '
+                                     'cancels the socket\'s future, so no CANCEL is sent and the stream stays registered '
+                                     'at both ends')
         if ok and name in ('__aenter__', '__aexit__'):
             if not any(isinstance(n, ast.Await) and calls[0] in list(ast.walk(n)) for n in walk_local(f.node)):
                 ok, detail = False, 'the wrapped socket\'s %s is not awaited' % name
